@@ -66,4 +66,38 @@ def specOfAct (a : SAct) : C05.ActionSpec :=
 def specOfScpd (fs : Facts) (vars : List VarDef) (sacts : List SAct) : C05.ScpdSpec :=
   { vars := some (vars.map (specOfVar fs)), actions := some (sacts.map specOfAct) }
 
+
+/-! ### the device description a served device document denotes -/
+
+/-- the constructed body of each service of the tree: its variables and bound actions -/
+abbrev SvcBody := SvcInfo → List VarDef × List SAct
+
+def denoteSvc (fs : Facts) (body : SvcBody) (s : SvcInfo) : C05.ServiceSpec :=
+  { serviceId := some s.sid, serviceType := some s.stype, controlURL := some s.ctl, eventSubURL := some s.evt
+    scpdURL := some s.scpd, doc := .scpd (specOfScpd fs (body s).1 (body s).2) }
+
+mutual
+/-- every one of the twelve text elements is served (Python `None` as an empty element), no icons -/
+def denoteDev (fs : Facts) (body : SvcBody) : DevDef → C05.DeviceSpec
+  | .mk f svcs emb => .mk (f.map fun o => some (o.getD [])) [] (svcs.map (denoteSvc fs body)) (denoteDevs fs body emb)
+def denoteDevs (fs : Facts) (body : SvcBody) : List DevDef → List C05.DeviceSpec
+  | [] => []
+  | d :: r => denoteDev fs body d :: denoteDevs fs body r
+end
+
+mutual
+def allSvcs : DevDef → List SvcInfo
+  | .mk _ svcs emb => svcs ++ allSvcsL emb
+def allSvcsL : List DevDef → List SvcInfo
+  | [] => []
+  | d :: r => allSvcs d ++ allSvcsL r
+end
+
+/-- what the C14 server serves: the device document at `base`, every service's SCPD at its resolved URL -/
+def serve14 (fs : Facts) (body : SvcBody) (base : Str) (d : DevDef) (u : Str) : C05.Fetch :=
+  if u == base then .doc (x05 (serializeRoot d))
+  else match (allSvcs d).find? (fun s => C05.joinOpt base (some s.scpd) == some u) with
+    | some s => .doc (x05 (serializeScpd fs (body s).1 (body s).2))
+    | none => .status 404
+
 end Upnp.C14
